@@ -107,7 +107,12 @@ pub fn compile<TCompilationProfile: CompilationProfile>(
     );
 
     let total_artifacts_written = apply_file_system_operations(&file_system_operations, &artifacts)
-        .map_err(Diagnostic::from)?;
+        .map_err(|e| {
+            // We do not know how much of the operations was applied. Forget what we believe about
+            // the artifact directory, so that the next compile re-creates all of it.
+            state.file_system_state = None;
+            Diagnostic::from(e)
+        })?;
 
     CompilationStats {
         client_field_count: stats.client_field_count,
